@@ -171,6 +171,11 @@ pub fn sjis_verdict(b: &[u8]) -> bool {
 /// the driver line for a `read`: the decoder verdict travels with the case when it is negative
 pub fn read_cmd(skip: bool, hash: bool, b: &[u8]) -> String { if sjis_verdict(b) { format!("read {} {} {}", skip as u8, hash as u8, hex(b)) } else { format!("read {} {} sj0 {}", skip as u8, hash as u8, hex(b)) } }
 
+/// the same read, to be run by the model as a program of exact reads over a source cut into pieces of the given sizes
+pub fn reads_cmd(skip: bool, hash: bool, plan: &[usize], b: &[u8]) -> String {
+    let p: Vec<String> = plan.iter().take(24).map(|k| (*k).min(1 << 20).to_string()).collect();
+    format!("reads {} {} {} {} {}", skip as u8, hash as u8, sjis_verdict(b) as u8, p.join(","), hex(b)) }
+
 pub fn read_opts(skip: bool, hash: bool) -> slippi::de::Opts { slippi::de::Opts { skip_frames: skip, compute_hash: hash, ..Default::default() } }
 
 /// the canonical `read` result line; the summary is computed inside the catch
